@@ -191,6 +191,20 @@ def genexpr_twin_history():
              "value of variable T0 (a.SCALE)", "value of variable T1 (b.SCALE)", "values of a.SCALE and b.SCALE exchanged"])
 
 
+def hidden_memoized_history():
+    """a hidden dynamic call (not declared) of a function whose result is ALREADY memoized when the caller runs: the caller
+    must still be refused (or be correct): it must not be stored under a version that ignores the callee, whose later
+    edit would then go unnoticed"""
+    def fn(name, kind, module, const, refs=(), hidden=None):
+        return {"name": name, "kind": kind, "module": module, "const": const, "default": None, "kwdefault": None, "setconst": None, "tupconst": None,
+                "sset": None, "pair": None, "nested": None, "explicit": None, "hidden": hidden, "shadow": None, "refs": [list(r) for r in refs]}
+
+    def mk(c0, c2):
+        return {"pkg": "vpk", "nodes": [fn("m0", "m", "a", c0), fn("m1", "m", "a", 20, hidden="m0"), fn("m2", "m", "b", c2), fn("m3", "m", "a", 40, hidden="m2")]}
+    return [mk(3, 7), mk(4, 7), mk(4, 9)], ["initial", "const: body constant of m0 (called by m1 through a hidden dynamic call, memoized before m1 ran)",
+                                             "const: body constant of m2 (called by m3 through a hidden dynamic call in another module)"]
+
+
 def header_default_history():
     """a plain helper named only in the header of its user (default value of a parameter), in a plain helper and in a
     memento function; the helper's body is edited"""
@@ -322,7 +336,7 @@ def run(tier, seed):
     terms, metas = [], []
     with C.Scratch("c01") as scratch:
         jobs = []
-        for hi in range(n_hist + 6):
+        for hi in range(n_hist + 7):
             if hi == n_hist:
                 eds, descs = concat_history()
             elif hi == n_hist + 1:
@@ -335,6 +349,8 @@ def run(tier, seed):
                 eds, descs = genexpr_twin_history()
             elif hi == n_hist + 5:
                 eds, descs = header_default_history()
+            elif hi == n_hist + 6:
+                eds, descs = hidden_memoized_history()
             else:
                 eds, descs = make_history(rng, rng.randint(2, 4) if tier == "quick" else rng.randint(2, 6))
             how_ = rng.choice(["reload", "exec"])
